@@ -291,7 +291,13 @@ class Workload:
                 rec["got"] = await full("POST", api.body([b"p" * 300, b"q" * 300]))
             elif beh == "bad-head":
                 # a caller bug that is caught before anything is sent: an illegal header value
-                hdrs.append(("X-Bad", "a\nb"))
+                if self.spec["proto"] == "h2" and q["k"] % 2:
+                    # ... or, on HTTP/2, a head that only the h2 package objects to (RFC 9113 8.2.2), while it is
+                    # HPACK-encoding it: fields it has never seen before come first
+                    hdrs.extend([(f"X-Fresh-{q['token']}", f"v-{q['token']}"), ("TE", "gzip")])
+                    rec["bad_head_kind"] = "h2-te"
+                else:
+                    hdrs.append(("X-Bad", "a\nb"))
                 rec["got"] = await full()
             elif beh == "bad-upload":
                 # a caller bug: the body does not match the declared Content-Length (too short or too long); the
